@@ -138,7 +138,7 @@ pub fn behaviour() -> Behaviour {
         cfg,
         adjust: no_adjust,
         render,
-        quick: 1500,
+        quick: 4000,
         thorough: 20000,
         batch: 25,
         assumptions: &["m_cmp_rev / m_pcmp_rev reverse the order so swapped arguments are visible; m_pcmp_none and Inc/f32 produce None"],
